@@ -71,7 +71,7 @@ where
 }
 
 /// Build the combination and run one selection.  Err(overflow) if building failed.
-fn build_and_select(s: Shape, w: &[u32], pop: &Pop, env: &mut mcx::Env, alpha: Alphabet) -> Result<SelObs, WeightSumOverflow> {
+pub fn build_and_select(s: Shape, w: &[u32], pop: &Pop, env: &mut mcx::Env, alpha: Alphabet) -> Result<SelObs, WeightSumOverflow> {
     Ok(match s {
         Shape::Single => sel_obs(&wm(0, w[0]), pop, env, alpha),
         Shape::Pair => sel_obs(&WeightedPair::new(wm(0, w[0]), wm(1, w[1]))?, pop, env, alpha),
